@@ -336,6 +336,8 @@ macro_rules! setup_tracked_fn {
 
                 const CYCLE_STRATEGY: $zalsa::CycleRecoveryStrategy = $zalsa::CycleRecoveryStrategy::$cycle_recovery_strategy;
 
+                const CAN_SPECIFY: bool = $is_specifiable;
+
                 $($values_equal)+
 
                 $(
